@@ -1,7 +1,110 @@
 import PprofVerif.Base.Tok
-/- Driver operations for C07. -/
+import PprofVerif.Model.Combine
+/- Driver operations for C07 (combining / subtracting profiles).
+   Token forms:  key = frames:list(nat) tag:nat base:bool;  sample = key vals:list(int);
+   prof = list(sample);  ratio = num:int den:nat;  col = typ:nat unitname:nat fam:nat factor:nat;
+   tprof = list(col) prof. -/
 namespace Driver.C07
-open PV
+open PV PV.Combine
 
-def ops : List (String × (List String → String)) := []
+namespace R
+def key : Rd StackKey := do
+  let f ← Rd.list Rd.nat; let t ← Rd.nat; let b ← Rd.bool; pure ⟨f, t, b⟩
+def sample : Rd Sample := do let k ← key; let v ← Rd.list Rd.int; pure (k, v)
+def prof : Rd Prof := Rd.list sample
+def ratio : Rd Ratio := do
+  let n ← Rd.int; let d ← Rd.nat
+  match Ratio.mk? n d with
+  | some r => pure r
+  | none => failure
+def colT : Rd ColT := do
+  let t ← Rd.nat; let u ← Rd.nat; let f ← Rd.nat; let k ← Rd.nat; pure ⟨t, ⟨u, f, k⟩⟩
+def tprof : Rd TProf := do let c ← Rd.list colT; let p ← prof; pure ⟨c, p⟩
+end R
+
+namespace W
+def key (k : StackKey) : Wr := Wr.list Wr.nat k.frames ++ Wr.nat k.tag ++ Wr.bool k.base
+def sample (s : Sample) : Wr := key s.1 ++ Wr.list Wr.int s.2
+def prof (p : Prof) : Wr := Wr.list sample p
+def colT (c : ColT) : Wr := Wr.nat c.typ ++ Wr.nat c.unit.name ++ Wr.nat c.unit.fam ++ Wr.nat c.unit.factor
+def tprof (p : TProf) : Wr := Wr.list colT p.cols ++ prof p.samples
+end W
+
+def out {α} (f : α → Wr) : Outcome α → String
+  | .ok a => "ok " ++ Wr.render (f a)
+  | .err _ => "err"
+  | .panic _ => "panic"
+
+/-- is `a/d` within 2^-10 of a half-integer?  (there the float computation of the real code may
+round the other way; the harness then compares with tolerance) -/
+def nearTie (a : Int) (d : Nat) : Bool :=
+  let m := (2 * a.natAbs) % (2 * d)
+  let dist := if m ≥ d then m - d else d - m
+  dist * 1024 < 2 * d
+
+def anyNearTie (rs : List Ratio) (p : Prof) : Bool :=
+  p.any (fun s => (List.zipWith (fun (r : Ratio) x => !r.isOne && nearTie (x * r.num) r.den) rs s.2).any id)
+
+def mode? : Nat → Option Mode
+  | 0 => some .plain
+  | 1 => some .base
+  | 2 => some .diffBase
+  | _ => none
+
+def ops : List (String × (List String → String)) := [
+  ("c07.scalen", fun ts =>
+    match Rd.run (do let n ← Rd.nat; let rs ← Rd.list R.ratio; let p ← R.prof; pure (n, rs, p)) ts with
+    | none => "bad-op"
+    | some (n, rs, p) => out W.prof (scaleN rs n p)),
+  ("c07.scalen-pinned", fun ts =>
+    match Rd.run (do let n ← Rd.nat; let rs ← Rd.list R.ratio; let p ← R.prof; pure (n, rs, p)) ts with
+    | none => "bad-op"
+    | some (n, rs, p) => out W.prof (scaleNPinned rs n p)),
+  ("c07.scaleneg", fun ts =>
+    match Rd.run R.prof ts with
+    | none => "bad-op"
+    | some p => "ok " ++ Wr.render (W.prof (scaleNeg1 p))),
+  ("c07.normalize", fun ts =>
+    match Rd.run (do let n ← Rd.nat; let p ← R.prof; let pb ← R.prof; pure (n, p, pb)) ts with
+    | none => "bad-op"
+    | some (n, p, pb) =>
+      if !(wfB n p && wfB n pb) then "bad-op" else
+      match normalize n p pb with
+      | .ok q => "ok " ++ Wr.render (W.prof q ++ Wr.bool (anyNearTie (normRatios n p pb) p))
+      | .err _ => "err"
+      | .panic _ => "panic"),
+  ("c07.compat", fun ts =>
+    match Rd.run (Rd.list R.tprof) ts with
+    | none => "bad-op"
+    | some ps => out (Wr.list W.tprof) (compatibilize ps)),
+  ("c07.scaleprofiles", fun ts =>
+    match Rd.run (Rd.list R.tprof) ts with
+    | none => "bad-op"
+    | some ps => out (Wr.list W.tprof) (scaleProfiles ps)),
+  ("c07.fetch", fun ts =>
+    match Rd.run (do let m ← Rd.nat; let nz ← Rd.bool; let s ← Rd.list R.tprof; let b ← Rd.list R.tprof
+                     pure (m, nz, s, b)) ts with
+    | none => "bad-op"
+    | some (m, nz, s, b) =>
+      match mode? m with
+      | none => "bad-op"
+      | some md =>
+        if !((s ++ b).all (fun p => wfB p.cols.length p.samples)) then "bad-op" else
+        out W.tprof (fetch md nz s b)),
+  -- figures of a report: for nodes 0..k-1 flat and cum of column i, then the total
+  ("c07.report", fun ts =>
+    match Rd.run (do let i ← Rd.nat; let p ← R.prof; let tbl ← Rd.list (Rd.list Rd.nat); let k ← Rd.nat
+                     pure (i, p, tbl, k)) ts with
+    | none => "bad-op"
+    | some (i, p, tbl, k) =>
+      let nodesOf : Nat → List Nat := fun l => match tbl[l]? with | some ns => ns | none => []
+      if p.any (fun s => s.1.frames.any (fun l => tbl.length ≤ l)) then "bad-op" else
+      match figureO i (fun _ => true) p with
+      | .ok _ =>
+        let rows := (List.range k).flatMap (fun nd =>
+          Wr.int (figure (col i) (flatPred nodesOf nd) p) ++ Wr.int (figure (col i) (cumPred nodesOf nd) p))
+        "ok " ++ Wr.render (rows ++ Wr.int (diffBaseTotal (col i) p))
+      | .err _ => "err"
+      | .panic _ => "panic")
+]
 end Driver.C07
